@@ -9,8 +9,8 @@ META = {
     "text": ("Lean theorem Hv.C14.holds_good: for every schedule of enqueue/acquire/cancel/unlock/ttl of any length, granted = {head} "
              "(mutual exclusion and no blocked waiter), grants in arrival order with nobody skipped unless cancelled while waiting, "
              "stale/foreign unlock is an error that changes nothing, head removal hands over to exactly the next caller, no ready channel "
-             "closed twice, gateway TTL always positive; closed counterexamples refutes_wakeLast / refutes_wakeNone / refutes_doubleClose / "
-             "refutes_ttlFloor for mutated shapes; classify_sound ties the decision to 13 facts extracted from lock.go and gateway.go; the "
+             "closed twice, gateway TTL always positive; waiter_variant / granted_when_ahead_gone (liveness as a safety bound: a removal ahead of a waiter moves it exactly one place forward, nothing ever overtakes it, and once the n callers ahead have left it is the granted head; each holder leaves at the latest when its TTL watchdog fires — timers are trusted), waiter_id_is_a_capability (what the code would do with a waiter's id, and why the property does not quantify over it); closed counterexamples refutes_wakeLast / refutes_wakeNone / refutes_doubleClose / "
+             "refutes_ttlFloor for mutated shapes; classify_sound ties the decision to 14 facts (incl. the id source: uuid vs per-queue counter; foreign_unlock_noop is proved over the multi-key map model for globally unique ids, refutes_ticketIds otherwise) extracted from lock.go and gateway.go; the "
              "model is run against the real lock under forced schedules (hooks lock.enq/rm/select/acq/cancel/ttl), including the "
              "cancel-vs-grant race of Lock's select and TTL expiry through a hook-stopped watchdog."),
     "note": ("Trusted: Lean kernel; extract/c14.go; harness/c14.go + app/verifhook; Go channel/select/sync.Mutex semantics (each q.mu "
@@ -25,6 +25,7 @@ FINDINGS = {
     "C14-no-wake": "remove does not wake the next waiter when the head leaves: waiters stay blocked with no holder",
     "C14-ready-closed-twice": "remove closes the head's ready channel again when a waiter leaves (panic: close of closed channel)",
     "C14-ttl-floor": "the gateway can hand the locker a TTL <= 0",
+    "C14-foreign-id-unlock": "lock ids are not globally unique: an Unlock with an id issued for another key releases / evicts a caller of this key",
 }
 
 
@@ -38,6 +39,20 @@ def annotate(op, reply):
 
 def spec_violated(rep):
     """Spec oracle on implementation replies only."""
+    if rep.get("correspondence") == "C14s":
+        # the log itself is the implementation's behaviour: grants per queue must follow enqueue order,
+        # and a `hang` line means a caller was never served
+        heads = {}
+        for op in rep["ops"]:
+            w = op.split()
+            if w and w[0] == "hang":
+                return "a Lock call never returned under concurrent load (log ends with `hang`)"
+            if len(w) == 3 and w[0] == "acq":
+                k, n = w[1], int(w[2])
+                if n < heads.get(k, 0):
+                    return "queue %s granted caller %d after caller %d (not arrival order)" % (k, n, heads[k])
+                heads[k] = n
+        return None
     key_of, last = {}, {}
     for op, line in zip(rep["ops"], rep["impl"]):
         if op.startswith("case "):
@@ -46,6 +61,9 @@ def spec_violated(rep):
             if bad in line:
                 return "`%s` → `%s`: the real lock %s" % (op, line, "panicked" if bad == "panic" else "left a caller blocked / did not react")
         w = line.split()
+        if op.startswith("unlockx ") and len(w) > 3 and w[0] == "unlockx" and w[3].startswith("ok"):
+            return ("unlock with a foreign ID released another caller's lock: `%s` (an id issued on another key) was accepted on key %s (%s)"
+                    % (op, w[2], line))
         if op.startswith("lock ") and len(w) > 1 and w[0] == "enq":
             key_of[w[1]] = op.split()[1]
         L = P.lists_of(line)
@@ -69,14 +87,32 @@ def run(ctx):
     K.lean_verdict(ctx)
     corrs = []
     if K.build_hx(ctx) and K.build_drv(ctx):
-        args = ["%s=%s" % (k, facts.get(k, "unknown")) for k in ("wake", "wakeOnlyIfHead", "ttlThresh", "ttlFloor", "gwWithoutCancel")]
+        args = ["%s=%s" % (k, facts.get(k, "unknown")) for k in ("wake", "wakeOnlyIfHead", "ttlThresh", "ttlFloor", "gwWithoutCancel", "idSource")]
         c = P.correspondence_observed(ctx, "C14", args, annotate)
         corrs.append(("C14", args, c))
+        # genuinely concurrent run of the real lock; its hook log (written under each queue's own mutex)
+        # must be a trace of the model
+        targs = args + ["mode=trace"]
+        ct = K.correspondence(ctx, "C14s", targs, drv_domain="C14")
+        corrs.append(("C14s", targs, ct))
+        ctx.cov["trace_inclusion"] = {"domain": "C14s", "log_lines": len(ct.ops), "rounds": len(ct.cases),
+                                      "lines_rejected_by_model": len(ct.mismatch), "event_histogram": ct.op_hist}
     else:
         ctx.violation("harness does not build against the repository", {"correspondence": "C14", "log": getattr(ctx, "hx_log", "")[-2000:]},
                       tag="build", found_input=False)
     K.decide_standard(ctx, corrs, FINDINGS)
     K.report_mismatch(ctx, spec_violated)
+    # Spec oracle over the whole run, on the implementation's replies only
+    if not getattr(ctx, "pending_mismatch", None):
+        for _, _, c in corrs:
+            if c.err:
+                continue
+            for cs in c.cases:
+                rep = K.case_replay(c, cs)
+                why = spec_violated(rep)
+                if why:
+                    ctx.violation("implementation violates the property: " + why, rep, tag="impl")
+                    break
     if ctx.thorough:
         ok, out = K.leanchecker(ctx, ["Hv.Props.C14", "Hv.Conc.LockLemmas", "Hv.Conc.Lock"])
         ctx.cov["leanchecker"] = "ok" if ok else out[-500:]
@@ -87,7 +123,7 @@ def run(ctx):
     return K.finish(
         ctx, "proof",
         rule=("schedules = 8 corpus cases (FIFO chain with cancelled waiter and stale/foreign unlocks, TTL expiry, 4x cancel-vs-grant race, "
-              "cancelled head, gateway TTL floor and WithoutCancel) followed by random sequences of lock K long|short [hold] / go S / cancel S / "
+              "cancelled head, gateway TTL floor (measured in whole seconds, lag-tolerant) and WithoutCancel) followed by random sequences of lock K long|short [hold] / go S / cancel S / "
               "unlock S / unlockraw / expire S (4..25 ops quick, ..53 thorough) on keys a,b; non-trivial = at least 3 ops; distinct = distinct op "
               "texts; each op's reply (event, queue, granted set, believing holders read through a verif-only accessor) is compared between "
               "the real lock and the Lean model"),
